@@ -24,8 +24,9 @@ SameText(a, b)  == a = b                    \* the macro's identity: string comp
 
 \* ---- the pattern alphabet (property C16 + the interaction symbols of DESIGN 6)
 PlainSyms == {"id", "mut", "ref", "at", "raw", "fnname", "fnname_", "rawfn", "gnext", "gprev", "ugnext", "ugprev"}
-\* (tsmut / stref / tsat: a single inner binding that carries a binding mode or a subpattern: `N(mut q)`, `S { v: ref q }`, `N(q @ _)`)
-DestrSyms == {"wild", "tup2", "tup0", "ts1", "ts1w", "st1", "sts", "refp", "tsu", "nest2", "liftfn", "liftfn_", "tsmut", "stref", "tsat"}
+\* (tsmut / stref / tsat: a single inner binding that carries a binding mode or a subpattern: `N(mut q)`, `S { v: ref q }`, `N(q @ _)`;
+\*  tsraw: a single inner binding that is a raw keyword identifier: `N(r#match)`)
+DestrSyms == {"wild", "tup2", "tup0", "ts1", "ts1w", "st1", "sts", "refp", "tsu", "nest2", "liftfn", "liftfn_", "tsmut", "stref", "tsat", "tsraw"}
 AllSyms   == PlainSyms \cup DestrSyms
 
 RawKw == <<"type", "match", "loop", "move", "async">>
@@ -34,7 +35,7 @@ Idx(i) == ToString(i)
 \* bindings (as the syn visitor meets them) of symbol s at 1-based position i in fn f
 Binds(s, i, f) ==
   CASE s \in {"id", "mut", "ref", "at"} -> << Nm("p" \o Idx(i)) >>
-    [] s = "raw"     -> << RawNm(RawKw[i]) >>
+    [] s \in {"raw", "tsraw"} -> << RawNm(RawKw[i]) >>
     [] s = "fnname"  -> << f >>
     [] s = "fnname_" -> << [f EXCEPT !.base = @ \o "_"] >>
     [] s = "rawfn"   -> << RawNm(f.base) >>
@@ -72,6 +73,7 @@ PText(s, i, f) ==
     [] s = "tsmut"   -> "N(mut " \o NText(b[1]) \o "): N"
     [] s = "stref"   -> "S { v: ref " \o NText(b[1]) \o " }: S"
     [] s = "tsat"    -> "N(" \o NText(b[1]) \o " @ _): N"
+    [] s = "tsraw"   -> "N(" \o NText(b[1]) \o "): N"
     [] s = "liftfn"  -> "N(" \o NText(b[1]) \o "): N"
     [] s = "liftfn_" -> "N(" \o NText(b[1]) \o "): N"
 
@@ -94,7 +96,7 @@ VExpr(s, v) ==
   CASE s \in {"tup2"}  -> "(" \o ToString(v) \o ", " \o ToString(v + 1) \o ")"
     [] s = "nest2"     -> "N2(" \o ToString(v) \o ", " \o ToString(v + 1) \o ")"
     [] s = "tup0"      -> "()"
-    [] s \in {"at", "ts1", "tsu", "liftfn", "liftfn_", "tsmut", "tsat"} -> "N(" \o ToString(v) \o ")"
+    [] s \in {"at", "ts1", "tsu", "liftfn", "liftfn_", "tsmut", "tsat", "tsraw"} -> "N(" \o ToString(v) \o ")"
     [] s = "ts1w"      -> "N2(" \o ToString(v) \o ", 0)"
     [] s \in {"st1", "sts", "stref"} -> "S { v: " \o ToString(v) \o " }"
     [] s = "refp"      -> "&" \o ToString(v)
@@ -108,7 +110,7 @@ Expect(l) == FlattenSeq([i \in 1..Len(l) |->
                  [] Arity(l[i]) = 0 -> <<>>
                  [] OTHER -> <<LeafStart(l, i)>>])
 
-SymOkAt(s, i) == (s \in {"gprev", "ugprev"} => i >= 2) /\ (s = "raw" => i <= Len(RawKw))
+SymOkAt(s, i) == (s \in {"gprev", "ugprev"} => i >= 2) /\ (s \in {"raw", "tsraw"} => i <= Len(RawKw))
 AllBinds(l, f) == FlattenSeq([i \in 1..Len(l) |-> Binds(l[i], i, f)])
 DistinctBy(sq, Eq(_, _)) == \A i, j \in 1..Len(sq) : i # j => ~Eq(sq[i], sq[j])
 \* the user's own function must be valid Rust: all bindings distinct identifiers,
